@@ -137,6 +137,8 @@ def statistic(ctx):
     if not ok:
         return
     c, tv, fv = a[1], a[2], a[3]
+    if q.is_cmp(c) is not None and q.is_cmp(c)[1] == "==":
+        c, tv, fv = T.mk_not(c), fv, tv  # gated phis are kept with a canonical polarity of the condition
     cc = q.is_cmp(c)
     okc = cc is not None and cc[1] == "!=" and len(cc[2].atoms()) == 2 and all(x[0] == "sub" for x in cc[2].atoms())
     if okc:
